@@ -168,7 +168,17 @@ pub fn eval(expr: Node) -> Result<Decimal, Box<dyn error::Error>> {
                 #[cfg(feature = "verif_hooks")]
                 crate::verif_hooks::tick(crate::verif_hooks::Point::EvalLoop);
                 x += Decimal::new(1, 0);
-                n = (n.log10() / b.log10()).floor();
+                let next = n
+                    .checked_log10()
+                    .zip(b.checked_log10())
+                    .and_then(|(n, b)| n.checked_div(b))
+                    .ok_or("The iterated logarithm is not defined for these values")?
+                    .floor();
+                if next >= n {
+                    // the logarithm no longer decreases (a fixed point of a base close to 1)
+                    return Err("The iterated logarithm does not terminate for this base".into());
+                }
+                n = next;
             }
             Ok(x)
         }
